@@ -3,7 +3,7 @@
 From Coq Require Import List NArith Bool.
 Import ListNotations.
 Require Import Parser SBase SFetch Pipe SBuf ScanRel ScanRelTop.
-Require ScanRelDir ScanRelFlow ScanRelPlain ScanRelBlock.
+Require ScanRelDir ScanRelFlow ScanRelPlain ScanRelBlock ScanFuelAll.
 Local Open Scope nat_scope.
 
 Lemma scan_backends_agree : forall (orig : list chr) cap, (8 <= cap)%nat -> forall F K,
@@ -32,4 +32,12 @@ Proof.
   intros orig cap H. exact (run_str_buf_agree_safe orig cap H (ScanRelDir.scan_directive_ok cap H) (ScanRelDir.scan_tag_ok cap H)
     (ScanRelDir.scan_anchor_ok cap H) (ScanRelFlow.scan_flow_scalar_ok cap H) (ScanRelPlain.scan_plain_scalar_ok cap H)
     (ScanRelBlock.scan_block_scalar_ok cap H)).
+Qed.
+
+(* the string run always ends properly (ScanFuelAll.pipeline_ends_properly): the only exception left is fuel on the buffered side *)
+Lemma pipeline_backends_agree_total : forall (orig : list N) cap, 8 <= cap ->
+  run_str orig = run_buf cap orig \/ snd (run_buf cap orig) = PFuel.
+Proof.
+  intros orig cap H. destruct (pipeline_backends_agree orig cap H) as [E|[B|F]]; [left; exact E| |right; exact F].
+  pose proof (ScanFuelAll.pipeline_ends_properly orig) as P. destruct (snd (run_str orig)); cbn in *; contradiction.
 Qed.
